@@ -157,7 +157,7 @@ class SequenceSet(Parseable[Sequence[_SeqElem]]):
             match = cls._num_pattern.match(buf)
             if match:
                 buf = buf[match.end(0):]
-                item1 = int(match.group(0))
+                item1 = cls._parse_int(match.group(0), buf)
             else:
                 raise NotParseable(buf)
         if buf and buf[0] == 0x3a:
@@ -167,7 +167,7 @@ class SequenceSet(Parseable[Sequence[_SeqElem]]):
             match = cls._num_pattern.match(buf)
             if match:
                 buf = buf[match.end(0):]
-                return (item1, int(match.group(0))), buf
+                return (item1, cls._parse_int(match.group(0), buf)), buf
             raise NotParseable(buf)
         return item1, buf
 
